@@ -336,3 +336,25 @@ Print Assumptions settle_terminates.
 Print Assumptions refresh_terminates.
 Print Assumptions C02_direct_unconditional.
 Print Assumptions C02_multi_hop_unconditional.
+
+(* ---- "over several connections to the same peer" (package N): Net.v has one connection per pair; every node's client
+   history in a net run is a one-connection history, a fixed point of package N's projection — and by
+   Props_C15.C15_trace_connection_independence a client with further fault-free connections to its peers sends exactly
+   the wantlists of that one-connection history. *)
+From BS Require Import Types Wantlist Client Client_proofs Client_proofs10 Client_proofs14 Net Net_proofs40 Client_proofs15.
+From Coq Require Import ZArith List. Import ListNotations.
+Open Scope N_scope.
+
+Theorem C15_net_histories_one_connection :
+  forall (Sz : N) (Hh : hash_fn) (n : nat) (ops : list nop) (i : N),
+  let h := cops_run Sz Hh (net_init n) ops i in
+  forallb (op_single KN) h = true /\
+  single_conn_state KN (st_after true h) /\
+  churn_ok true h = true /\
+  st_after true (project KN true h) = st_after true h /\
+  filter not_bad (outs_after true (project KN true h)) = filter not_bad (outs_after true h) /\
+  (forall (p : peer) (c : conn) (f : bool) (es : list gen_entry),
+   In (OSendWantlist p c f es) (outs_after true h) -> c = CONN).
+Proof. exact (@Client_proofs15.C15_net_histories_one_connection). Qed.
+
+Print Assumptions C15_net_histories_one_connection.
